@@ -9,27 +9,38 @@
 (***************************************************************************)
 EXTENDS GT
 
-CONSTANTS Rs, Offs, LimIdx, Ks
+CONSTANTS Rs, Offs, LimIdx, Ks,
+          Warm      \* what happened to the base measure before it is truncated: subset of {"none", "integral", "trunc"}
 
 n == Len(hist)
 Init == heap = <<>> /\ hist = <<>>
 
 Points == << Q(<<0>>, 1), Q(<<1>>, 2), Q(<<-1>>, 1), Q(<<2>>, 1), Q(<<5>>, 1), Q(<<-7>>, 2), Q(<<1>>, 3) >>
 
+Nop == Emit(heap, Step("Nop", [x |-> 0], NoObj, 0, NoObj, 0, NoObj, NoObj))
+\* the base measure may have been used before (its lazily filled caches are then populated): by an integral, or by an
+\* earlier truncated object built on it (e.g. the left one of two adjacent intervals)
+WarmStep(w) ==
+    CASE w = "none" -> Nop
+      [] w = "integral" -> AQuery(1, "log_integral")
+      [] w = "trunc" -> ANewTrunc("Trunc", 1, 1, "scalar")
+T == Len(heap)          \* the truncated object under test is the most recent object after step 3
+
 Next ==
     \/ n = 0 /\ \E kind \in {"Measure", "PDF"}, R \in Rs, s \in Offs : ANewMeasure1D(kind, R, s)
-    \/ n = 1 /\ \E cls \in {"Trunc", "TruncPDF"}, li \in LimIdx, lm \in {"scalar", "array"} :
+    \/ n = 1 /\ \E w \in Warm : WarmStep(w)
+    \/ n = 2 /\ \E cls \in {"Trunc", "TruncPDF"}, li \in LimIdx, lm \in {"scalar", "array"} :
                    ANewTrunc(cls, 1, li, lm)
-    \/ n = 2 /\ (\/ \E k \in Ks : ATruncIntegrate(2, IF k = 0 THEN "1" ELSE IF k = 1 THEN "x" ELSE IF k = 2 THEN "x**2" ELSE "x**k", k)
-                 \/ \E k \in {0, 1, 2} : ATruncIntegrate(2, "x**k", k)
-                 \/ ATruncCall(2, Points, FALSE)
-                 \/ ATruncCall(2, Pick(Points, NumR(heap[1]), 1), TRUE)
-                 \/ (heap[2].cls = "Trunc" /\ ATruncGetDensity(2))
-                 \/ (heap[2].cls = "TruncPDF" /\ \E w \in {"mean", "variance"} : ATruncStat(2, w)))
-    \/ n = 3 /\ hist[3].act = "TruncGetDensity" /\ (\/ ATruncCall(3, Points, FALSE)
-                                                     \/ ATruncIntegrate(3, "1", 0)
-                                                     \/ ATruncStat(3, "mean") \/ ATruncStat(3, "variance"))
+    \/ n = 3 /\ (\/ \E k \in Ks : ATruncIntegrate(T, IF k = 0 THEN "1" ELSE IF k = 1 THEN "x" ELSE IF k = 2 THEN "x**2" ELSE "x**k", k)
+                 \/ \E k \in {0, 1, 2} : ATruncIntegrate(T, "x**k", k)
+                 \/ ATruncCall(T, Points, FALSE)
+                 \/ ATruncCall(T, Pick(Points, NumR(heap[1]), 1), TRUE)
+                 \/ (heap[T].cls = "Trunc" /\ ATruncGetDensity(T))
+                 \/ (heap[T].cls = "TruncPDF" /\ \E w \in {"mean", "variance"} : ATruncStat(T, w)))
+    \/ n = 4 /\ hist[4].act = "TruncGetDensity" /\ (\/ ATruncCall(T, Points, FALSE)
+                                                     \/ ATruncIntegrate(T, "1", 0)
+                                                     \/ ATruncStat(T, "mean") \/ ATruncStat(T, "variance"))
 
-Done == (n = 3 /\ hist[3].act # "TruncGetDensity") \/ n = 4
+Done == (n = 4 /\ hist[4].act # "TruncGetDensity") \/ n = 5
 Inv_Export == Export(Done)
 =============================================================================
